@@ -114,7 +114,8 @@ def random_histories(ctx, rng, n_graphs, size_lo, size_hi, labels=True, collide=
         # a quarter of the histories use short ids over a tiny alphabet: ids that are prefixes /
         # substrings of each other (hand-numbered revisions such as 2, 20, 21)
         hist = gen_graph.gen_history(rng, n, labels=labels and rng.random() < 0.6, deps=rng.random() < 0.7,
-                                     collide=collide or rng.random() < 0.25, max_parents=3 if rng.random() < 0.2 else 2)
+                                     collide=collide or rng.random() < 0.25, max_parents=3 if rng.random() < 0.2 else 2,
+                                     numeric=rng.random() < 0.1)
         yield hist
 
 
